@@ -204,6 +204,17 @@ class NumericDataType(BaseDataType):
                  validation_level=None):
         super(NumericDataType, self).__init__(value, max_length,
                                               validation_level)
+        # the maximum length applies to the text that is emitted (see to_er7)
+        if Validator.is_strict(self.validation_level) and self.max_length is not None and \
+                len(self.to_er7()) > self.max_length:
+            raise MaxLengthReached(value, self.max_length)
+
+    def to_er7(self, encoding_chars=None):
+        # HL7 numbers have no exponent notation: a Decimal is emitted in plain decimal form
+        # ('0.0000001', not '1E-7')
+        if isinstance(self.value, Decimal):
+            return '{0:f}'.format(self.value)
+        return super(NumericDataType, self).to_er7(encoding_chars)
 
 
 class DateTimeDataType(BaseDataType):
